@@ -268,6 +268,23 @@ def rule_positional(rep, crate):
                 if '0' in tg and fn.edge_dominates((sb, tg['0']), b) and set(tg) == {'0', 'otherwise'}:
                     # the discriminant is the index component
                     ok = True
+            # guard form: `Nested::Unnamed(..) if position == 0 => ..`
+            if not ok:
+                for sb in switches(fn):
+                    c = cond_of_switch(fn, sb)
+                    if not c or c['root'][0] != 'bin' or c['root'][2]['rhs']['bop'] not in ('Eq', 'Ne'):
+                        continue
+                    rhs = c['root'][2]['rhs']
+                    zero = [k for k in ('a', 'b') if const_int(rhs[k]) == 0]
+                    if len(zero) != 1:
+                        continue
+                    other = rhs['b' if zero[0] == 'a' else 'a']
+                    sl = fn.slice(other, through_calls=False)
+                    if sl.binops or len(sl.calls) != 1 or not any(re.search(r'Enumerate<.*> as std::iter::Iterator>::next$', x) for x in sl.calls):
+                        continue
+                    edge = (c['bb'], c['t'] if rhs['bop'] == 'Eq' else c['f'])
+                    if fn.edge_dominates(edge, b):
+                        ok = True
             if not ok:
                 rep.viol(rid, 'positional:%s' % name.split('::')[-1], 'a positional callback is accepted at a position other than 0 (or unconditionally)', loc(fn, t['line']))
 
